@@ -7,15 +7,19 @@
     op.  Everything else is predicted by the model and compared: whether the
     datagram reaches a backend, WHICH backend (from the model's own socket, not
     from the hint, once the flow exists), on which upstream socket (index in
-    order of creation), and which client receives the echo. *)
+    order of creation), and which client receives the echo.
+
+    The control-plane requests of the scenario (AddCluster, RemoveCluster, AddUdpFrontend, RemoveUdpFrontend,
+    UpdateUdpListener) go through the proxy-level model [C19/Routing.v]: [r_px] is the proxy's routing state and
+    the manager receives exactly the inputs those functions return. *)
 From Coq Require Import List Arith ZArith NArith String Bool.
-From SV Require Import Common.Tok Common.Slab C19.Model C19.Shell C19.Run.
+From SV Require Import Common.Tok Common.Slab C19.Model C19.Shell C19.Routing C19.Run.
 Import ListNotations.
 Open Scope string_scope.
 Open Scope list_scope.
 
 Record srun := mksrun {
-  r_sh : shell; r_now : N; r_cfg : cfg;
+  r_sh : shell; r_now : N; r_px : proxy;
   r_seq : list (nat * nat);      (* upstream token -> index of the socket in order of creation *)
   r_nseq : nat;
   r_v6 : bool; r_removed : bool }.
@@ -70,8 +74,34 @@ Fixpoint fire_due (fuel : nat) (sh : shell) (now : N) : shell :=
     end
   end.
 
+Definition CL : cid := [99; 49; 57]%N.     (* "c19" *)
+Definition px0 : proxy := mkproxy 0 0 0 0 None None [] 16393 10000 1000000.
+
+(** the knobs the driver re-sends with its AddCluster: the cached block's, the defaults when there is none *)
+Definition knob_n (o : option N) : N := match o with Some n => n | None => 0%N end.
+Definition knob_b (o : option bool) : bool := match o with Some b => b | None => false end.
+Definition reblock (p : proxy) (wp : bool) : udp_block :=
+  match cache_get (px_cache p) CL with
+  | Some u => mkudp (Some wp) (Some (knob_n (u_responses u))) (Some (knob_n (u_requests u)))
+                    (Some (knob_b (u_send_pp u))) (Some (knob_b (u_pp_every u)))
+  | None => mkudp (Some wp) (Some 0%N) (Some 0%N) (Some false) (Some false)
+  end.
+
+Fixpoint cfg_events (sh : shell) (now : N) (l : list input) : shell :=
+  match l with
+  | [] => sh
+  | i :: l' => cfg_events (fst (shell_step enc_hash true sh now no_env [] (EConfig i))) now l'
+  end.
+
+Definition opt_n (t : option tok) : option N :=
+  match t with Some (TN z) => if Z.ltb z 0 then None else Some (Z.to_N z) | _ => None end.
+
 Definition sstep (st : srun) (op : list tok) : srun * list tok :=
   let bad := (st, [TS "badop"]) in
+  (* a control-plane request: the proxy model says what the manager is told *)
+  let control (r : proxy * list input) (name : string) :=
+    (mksrun (cfg_events (r_sh st) (r_now st) (snd r)) (r_now st) (fst r) (r_seq st) (r_nseq st) (r_v6 st)
+            (r_removed st), [TS name; TN 1]) in
   match op with
   | TS name :: args =>
     if name =? "setup" then
@@ -80,10 +110,13 @@ Definition sstep (st : srun) (op : list tok) : srun * list tok :=
         let idle := match rest with TN i :: _ => Z.to_N i | _ => 30%N end in
         let every := match rest with _ :: TN e :: _ => Z.eqb e 1 | _ => false end in
         let v6 := match rest with _ :: _ :: TN v :: _ => Z.eqb v 1 | _ => false end in
-        let c := mkcfg [99; 49; 57]%N (Z.eqb wp 1) (Z.to_N resp) (Z.to_N req) (idle * 1000) (idle * 1000)
-                       (Z.eqb pp 1) every in
-        let cap := if Z.eqb mf 0 then 1000000%N else Z.to_N mf in
-        (mksrun (shell_new (mgr_new c cap 1500) listen_addr) (r_now st) c [] 0 v6 false, [TS "setup"; TN 1])
+        (* AddUdpListener, AddCluster, AddUdpFrontend *)
+        let u := mkudp (Some (Z.eqb wp 1)) (Some (Z.to_N resp)) (Some (Z.to_N req)) (Some (Z.eqb pp 1)) (Some every) in
+        let p0 := mkproxy idle idle (Z.to_N mf) 1500 None None [] 16393 10000 1000000 in
+        let p := fst (px_add_front (fst (px_add_cluster p0 CL (Some u))) CL) in
+        let cap := effective_max_flows (px_max_flows p) (px_max_conn p) (px_auto p) in
+        (mksrun (shell_new (mgr_new (px_cfg p) cap (clamp_max_rx 1500 (px_buffer_size p))) listen_addr)
+                (r_now st) p [] 0 v6 false, [TS "setup"; TN 1])
       | _ => bad end
     else if name =? "send" then
       match args with
@@ -94,7 +127,7 @@ Definition sstep (st : srun) (op : list tok) : srun * list tok :=
         let '(sh1, w1) := shell_step enc_hash true (r_sh st) (r_now st) e [] (EClient src p) in
         let '(seq1, n1) := note_opens w1 (r_seq st) (r_nseq st) in
         match first_up w1 with
-        | None => (mksrun sh1 (r_now st) (r_cfg st) seq1 n1 (r_v6 st) false, [TS "send"; TN ci; TN 0; TN (-1); TN (-1); TN (-1)])
+        | None => (mksrun sh1 (r_now st) (r_px st) seq1 n1 (r_v6 st) false, [TS "send"; TN ci; TN 0; TN (-1); TN (-1); TN (-1)])
         | Some (tok, _) =>
           let b := match opened_backend w1 tok with
                    | Some b => Some b
@@ -105,7 +138,7 @@ Definition sstep (st : srun) (op : list tok) : srun * list tok :=
           (* an echo above max_rx_datagram_size is dropped by the manager itself *)
           let '(sh2, w2) := shell_step enc_hash true sh1 (r_now st) no_env [] (EUpstream tok reply) in
           let rt := match first_client w2 with Some d => Z.of_N (a_port d) - 10000 | None => -1 end in
-          (mksrun sh2 (r_now st) (r_cfg st) seq1 n1 (r_v6 st) false,
+          (mksrun sh2 (r_now st) (r_px st) seq1 n1 (r_v6 st) false,
            [TS "send"; TN ci; TN 1; TN bidx;
             match nget seq1 tok with Some k => tn_nat k | None => TN (-1) end; TN rt])
         end
@@ -114,39 +147,36 @@ Definition sstep (st : srun) (op : list tok) : srun * list tok :=
       match args with
       | TN ms :: _ =>
         let now := (r_now st + Z.to_N ms)%N in
-        (mksrun (fire_due 64 (r_sh st) now) now (r_cfg st) (r_seq st) (r_nseq st) (r_v6 st) (r_removed st), [])
+        (mksrun (fire_due 64 (r_sh st) now) now (r_px st) (r_seq st) (r_nseq st) (r_v6 st) (r_removed st), [])
       | _ => bad end
     else if name =? "recluster" then
       match args with
-      | [TN wp] =>
-        let c := r_cfg st in
-        let c' := mkcfg (c_cluster c) (Z.eqb wp 1) (c_responses c) (c_requests c) (c_front c) (c_back c)
-                        (c_send_pp c) (c_pp_every c) in
-        (mksrun (fst (shell_step enc_hash true (r_sh st) (r_now st) no_env [] (EConfig (ISetCluster c'))))
-                (r_now st) c' (r_seq st) (r_nseq st) (r_v6 st) (r_removed st), [TS "recluster"; TN 1])
+      | [TN wp] => control (px_add_cluster (r_px st) CL (Some (reblock (r_px st) (Z.eqb wp 1)))) "recluster"
       | _ => bad end
     else if name =? "updlistener" then
       match args with
-      | TN n :: _ =>
-        (mksrun (fst (shell_step enc_hash true (r_sh st) (r_now st) no_env [] (EConfig (ISetMaxRx (Z.to_N n)))))
-                (r_now st) (r_cfg st) (r_seq st) (r_nseq st) (r_v6 st) (r_removed st), [TS "updlistener"; TN 1])
+      | t0 :: rest =>
+        (* UpdateUdpListener: max_rx [front back max_flows], a negative value leaves the field out of the patch *)
+        control (px_update_listener (r_px st)
+                   (mkpatch (opt_n (nth_error rest 0)) (opt_n (nth_error rest 1)) (opt_n (Some t0))
+                            (opt_n (nth_error rest 2)))) "updlistener"
       | _ => bad end
     else if name =? "recluster_noudp" then
       (* AddCluster without a udp block: apply_cluster clears the cached knobs, cluster_config_for gives the defaults *)
-      let c := r_cfg st in
-      let c' := cluster_config_for (c_cluster c) (c_front c) (c_back c) (apply_cluster_cache None None) in
-      (mksrun (fst (shell_step enc_hash true (r_sh st) (r_now st) no_env [] (EConfig (ISetCluster c'))))
-              (r_now st) c' (r_seq st) (r_nseq st) (r_v6 st) (r_removed st), [TS "recluster_noudp"; TN 1])
+      control (px_add_cluster (r_px st) CL None) "recluster_noudp"
+    else if name =? "rmfront" then control (px_remove_front (r_px st)) "rmfront"
+    else if name =? "addfront" then control (px_add_front (r_px st) CL) "addfront"
+    else if name =? "rmcluster" then control (px_remove_cluster (r_px st) CL) "rmcluster"
     else if name =? "addbackend" then (st, [TS "addbackend"; TN 1])   (* the load balancer is an oracle *)
     else if name =? "rmbackend" then (st, [TS "rmbackend"; TN 1])
     else if name =? "bounce" then
       (* DeactivateListener + ActivateListener: close_all_flows, then a fresh session over the same manager *)
       (mksrun (fst (shell_step enc_hash true (r_sh st) (r_now st) no_env [] ECloseAll))
-              (r_now st) (r_cfg st) (r_seq st) (r_nseq st) (r_v6 st) (r_removed st), [TS "bounce"; TN 1; TN 1])
+              (r_now st) (r_px st) (r_seq st) (r_nseq st) (r_v6 st) (r_removed st), [TS "bounce"; TN 1; TN 1])
     else if name =? "remove" then
       (* RemoveListener: close_all_flows, then the listener is gone *)
       (mksrun (fst (shell_step enc_hash true (r_sh st) (r_now st) no_env [] ECloseAll))
-              (r_now st) (r_cfg st) (r_seq st) (r_nseq st) (r_v6 st) true, [TS "remove"; TN 1])
+              (r_now st) (r_px st) (r_seq st) (r_nseq st) (r_v6 st) true, [TS "remove"; TN 1])
     else bad
   | _ => bad
   end.
@@ -158,4 +188,4 @@ Fixpoint srun_from (st : srun) (ops : list (list tok)) : list (list tok) :=
   end.
 
 Definition run_shell_case (ops : list (list tok)) : list (list tok) :=
-  srun_from (mksrun (shell_new (mgr_new empty_cfg 0 0) listen_addr) 0%N empty_cfg [] 0 false false) ops.
+  srun_from (mksrun (shell_new (mgr_new empty_cfg 0 0) listen_addr) 0%N px0 [] 0 false false) ops.
